@@ -49,6 +49,7 @@ PLANS = {
 PLANS["C15"] = dict(engine="ops")
 PLANS["C16"] = dict(engine="ops")
 PLANS["C20"] = dict(engine="diff")
+PLANS["C07"] = dict(engine="lin")
 
 TEXT = {
     "C01": "No lost events", "C02": "No phantom events", "C03": "Order", "C04": "Watch-set semantics",
